@@ -740,3 +740,12 @@ Theorem four_unquoters_idem (s : str) :
   safely_unquote_query_item (safely_unquote_query_item s) = safely_unquote_query_item s /\
   safely_unquote_fragment (safely_unquote_fragment s) = safely_unquote_fragment s.
 Proof. repeat split; apply safely_unquote_idem; vm_compute; reflexivity. Qed.
+
+(* the query-string form: every key and value is a fixed point of its unquoter *)
+Lemma safely_unquote_qsl_idem l : safely_unquote_qsl (safely_unquote_qsl l) = safely_unquote_qsl l.
+Proof.
+  unfold safely_unquote_qsl, map_qsl. rewrite map_map. apply map_ext. intros [k v]. cbn [fst snd].
+  destruct (four_unquoters_idem k) as (_ & _ & Hk & _). rewrite Hk.
+  destruct v as [v|]; [|reflexivity].
+  destruct (four_unquoters_idem v) as (_ & _ & Hv & _). rewrite Hv. reflexivity.
+Qed.
